@@ -224,6 +224,78 @@ pub fn cff_facts(d: &[u8]) -> Option<CffFacts> {
     Some(f)
 }
 
+/// Bytes of object data of an INDEX of a CFF 1 table (last offset - 1); 0 for an empty INDEX.
+fn index_data_len(d: &[u8], at: usize) -> Option<usize> {
+    let (count, data0, _, end) = index_at(d, at)?;
+    if count == 0 {
+        return Some(0);
+    }
+    if end > d.len() {
+        return None;
+    }
+    Some(end - data0 - 1)
+}
+
+/// Lengths of the charstrings of a CFF 1 table (independent INDEX walk).
+pub fn cff_charstring_lengths(d: &[u8]) -> Option<Vec<usize>> {
+    let hdr = *d.get(2)? as usize;
+    let (_, _, _, after_name) = index_at(d, hdr)?;
+    let top = index_obj(d, after_name, 0)?;
+    let cs = dict_ops(top).iter().find(|o| o.0 == 17)?.1.first().copied()? as usize;
+    let (count, _, os, _) = index_at(d, cs)?;
+    let mut out = Vec::with_capacity(count);
+    for i in 0..count {
+        let a = off(d, cs + 3 + i * os, os)?;
+        let b = off(d, cs + 3 + (i + 1) * os, os)?;
+        out.push(b.checked_sub(a)?);
+    }
+    Some(out)
+}
+
+/// Bytes of object data of every INDEX of a CFF 1 table: [("name", n), ("top", n), ("string", n), ("gsubrs", n),
+/// ("charstrings", n), ("fdarray", n), ("lsubrs", n per Private DICT that has one)].  None: not walkable.
+pub fn cff_index_sizes(d: &[u8]) -> Option<Vec<(&'static str, usize)>> {
+    let mut out = Vec::new();
+    let hdr = *d.get(2)? as usize;
+    out.push(("name", index_data_len(d, hdr)?));
+    let (_, _, _, after_name) = index_at(d, hdr)?;
+    out.push(("top", index_data_len(d, after_name)?));
+    let top = index_obj(d, after_name, 0)?;
+    let (_, _, _, after_top) = index_at(d, after_name)?;
+    out.push(("string", index_data_len(d, after_top)?));
+    let (_, _, _, after_str) = index_at(d, after_top)?;
+    out.push(("gsubrs", index_data_len(d, after_str)?));
+    let ops = dict_ops(top);
+    let get = |op: u16| ops.iter().find(|o| o.0 == op).map(|o| o.1.clone());
+    let cs = get(17)?.first().copied()? as usize;
+    out.push(("charstrings", index_data_len(d, cs)?));
+    let mut privs: Vec<(usize, usize)> = Vec::new();
+    if let Some(fda) = get(0x0c24).and_then(|v| v.first().copied()) {
+        let fda = fda as usize;
+        out.push(("fdarray", index_data_len(d, fda)?));
+        let (count, _, _, _) = index_at(d, fda)?;
+        for i in 0..count {
+            if let Some(p) = index_obj(d, fda, i).and_then(|fd| dict_ops(fd).into_iter().find(|o| o.0 == 18)) {
+                if p.1.len() == 2 {
+                    privs.push((p.1[0] as usize, p.1[1] as usize));
+                }
+            }
+        }
+    } else if let Some(p) = get(18) {
+        if p.len() == 2 {
+            privs.push((p[0] as usize, p[1] as usize));
+        }
+    }
+    for (size, at) in privs {
+        if let Some(pd) = d.get(at..at.checked_add(size)?) {
+            if let Some(rel) = dict_ops(pd).iter().find(|o| o.0 == 19).and_then(|s| s.1.first().copied()) {
+                out.push(("lsubrs", index_data_len(d, at + rel as usize)?));
+            }
+        }
+    }
+    Some(out)
+}
+
 /// (count, data0, offSize, end) of a CFF2 INDEX (32-bit count)
 fn index2_at(d: &[u8], at: usize) -> Option<(usize, usize, usize, usize)> {
     let count = be32(d, at)? as usize;
